@@ -102,14 +102,12 @@ func (data *Data) Deserialize(fr *FrameHeader) error {
 
 func (data *Data) Serialize(fr *FrameHeader) {
 	// TODO: generate hasPadding and set to the frame payload
-	if data.endStream {
-		fr.SetFlags(
-			fr.Flags().Add(FlagEndStream))
-	}
+	// The flags say what this frame is, not what was in the header before: a
+	// header that was read from a padded frame still has PADDED on it.
+	fr.SetFlags(
+		fr.Flags().with(FlagEndStream, data.endStream).with(FlagPadded, data.hasPadding))
 
 	if data.hasPadding {
-		fr.SetFlags(
-			fr.Flags().Add(FlagPadded))
 		data.b = http2utils.AddPadding(data.b)
 	}
 
